@@ -151,3 +151,15 @@ def copy_with_ids(expr, mapping):
         if k in memo:
             mapping[id(memo[k])] = v
     return new
+
+
+def is_pure_call_free(expr, var):
+    """Boolean combination of comparisons and of predicate calls on ``var`` (var.is_x()) -- nothing with effects."""
+    for n in ast.walk(expr):
+        if isinstance(n, ast.Call):
+            if not (isinstance(n.func, ast.Attribute) and isinstance(n.func.value, ast.Name) and n.func.value.id == var
+                    and not n.args and not n.keywords and (n.func.attr.startswith("is_") or n.func.attr.startswith("_is_"))):
+                return False
+        elif not isinstance(n, PURE + (ast.Not, ast.And, ast.Or)):
+            return False
+    return True
